@@ -60,17 +60,35 @@ Lemma stops_stops_ident rest : stops rest -> stops_ident rest.
 Proof. intros [->|[r ->]]; [exact I|reflexivity]. Qed.
 
 (* ---------------------------------------------------------------- comment stripping and right trim *)
-Lemma cut_at_notin c l : ~ In c l -> cut_at c l = l.
+Definition no59 (l : text) : Prop := ~ In 59 l /\ ~ In 35 l /\ ~ In 34 l.
+Lemma no59_app a b : no59 a -> no59 b -> no59 (a ++ b).
+Proof. intros [A1 [A2 A3]] [B1 [B2 B3]]. repeat split; intros H; apply in_app_or in H; tauto. Qed.
+Lemma no59_cons c l : c <> 59 -> c <> 35 -> c <> 34 -> no59 l -> no59 (c :: l).
+Proof. intros H1 H2 H3 [A1 [A2 A3]]. repeat split; intros [E|E]; try tauto; congruence. Qed.
+Lemma no59_nil : no59 [].
+Proof. repeat split; intros []. Qed.
+
+Lemma cut_false_app p : forall r, no59 p -> cut_comment false (p ++ r) = p ++ cut_comment false r.
 Proof.
-  induction l as [|x l IH]; intros H; [reflexivity|]. cbn [cut_at].
-  destruct (N.eqb_spec x c) as [->|]; [exfalso; apply H; left; reflexivity|]. f_equal. apply IH. intros G. apply H. right. exact G.
+  induction p as [|c p IH]; intros r H; [reflexivity|]. destruct H as [H1 [H2 H3]].
+  cbn [app cut_comment].
+  destruct (N.eqb_spec c 34) as [->|]; [exfalso; apply H3; left; reflexivity|].
+  destruct (N.eqb_spec c 59) as [->|]; [exfalso; apply H1; left; reflexivity|].
+  destruct (N.eqb_spec c 35) as [->|]; [exfalso; apply H2; left; reflexivity|]. cbn [orb]. f_equal. apply IH.
+  repeat split; intros G; [apply H1|apply H2|apply H3]; right; exact G.
 Qed.
-Lemma cut_at_app c a b : ~ In c a -> cut_at c (a ++ c :: b) = a.
-Proof.
-  induction a as [|x a IH]; intros H; cbn [app cut_at].
-  - rewrite N.eqb_refl. reflexivity.
-  - destruct (N.eqb_spec x c) as [->|]; [exfalso; apply H; left; reflexivity|]. f_equal. apply IH. intros G. apply H. right. exact G.
-Qed.
+Lemma cut_false_id l : no59 l -> cut_comment false l = l.
+Proof. intros H. rewrite <- (app_nil_r l) at 1. rewrite cut_false_app by exact H. apply app_nil_r. Qed.
+Lemma cut_false_comment l junk : no59 l -> cut_comment false (l ++ 59 :: junk) = l.
+Proof. intros H. rewrite cut_false_app by exact H. cbn [cut_comment]. change (59 =? 34) with false. change ((59 =? 59) || (59 =? 35)) with true. cbn iota. apply app_nil_r. Qed.
+Lemma cut_true_pair e r : cut_comment true (92 :: e :: r) = 92 :: e :: cut_comment true r.
+Proof. reflexivity. Qed.
+Lemma cut_true_quote r : cut_comment true (34 :: r) = 34 :: cut_comment false r.
+Proof. reflexivity. Qed.
+Lemma cut_true_plain c r : c <> 92 -> c <> 34 -> cut_comment true (c :: r) = c :: cut_comment true r.
+Proof. intros H1 H2. cbn [cut_comment]. destruct (N.eqb_spec c 92); [contradiction|]. destruct (N.eqb_spec c 34); [contradiction|]. reflexivity. Qed.
+Lemma cut_false_quote r : cut_comment false (34 :: r) = 34 :: cut_comment true r.
+Proof. reflexivity. Qed.
 
 Lemma rtrim_all_trail t : forallb is_trail t = true -> rtrim t = [].
 Proof.
@@ -93,43 +111,33 @@ Proof. intros [a [x [-> H]]]. apply rtrim_end, H. Qed.
 Lemma ends_solid_app a b : ends_solid b -> ends_solid (a ++ b).
 Proof. intros [b' [x [-> H]]]. exists (a ++ b'), x. rewrite app_assoc. split; [reflexivity|exact H]. Qed.
 
-Definition no59 (l : text) : Prop := ~ In 59 l /\ ~ In 35 l.
-Lemma no59_app a b : no59 a -> no59 b -> no59 (a ++ b).
-Proof. intros [A1 A2] [B1 B2]. split; intros H; apply in_app_or in H; tauto. Qed.
-Lemma no59_cons c l : c <> 59 -> c <> 35 -> no59 l -> no59 (c :: l).
-Proof. intros H1 H2 [A1 A2]. split; intros [E|E]; try tauto; congruence. Qed.
-Lemma no59_nil : no59 [].
-Proof. split; intros []. Qed.
-
 (* a line without comment characters that ends in a solid character is left alone *)
 Lemma prep_line_id l : no59 l -> (l = [] \/ ends_solid l) -> prep_line l = l.
 Proof.
-  intros [H1 H2] Hs. unfold prep_line. rewrite (cut_at_notin 59 l H1), (cut_at_notin 35 l H2).
+  intros H Hs. unfold prep_line. rewrite (cut_false_id l H).
   destruct Hs as [->|Hs]; [reflexivity|apply rtrim_solid, Hs].
 Qed.
 (* a `  ; ...` comment after such a line disappears together with the two blanks in front of it *)
 Lemma prep_line_comment l junk : no59 l -> (l = [] \/ ends_solid l) -> prep_line (l ++ 32 :: 32 :: 59 :: junk) = l.
 Proof.
-  intros [H1 H2] Hs. unfold prep_line.
+  intros H Hs. unfold prep_line.
   replace (l ++ 32 :: 32 :: 59 :: junk) with ((l ++ [32; 32]) ++ 59 :: junk) by (rewrite <- app_assoc; reflexivity).
-  rewrite cut_at_app.
-  2:{ intros H. apply in_app_or in H. destruct H as [H|[H|[H|[]]]]; [tauto|discriminate|discriminate]. }
-  rewrite cut_at_notin.
-  2:{ intros H. apply in_app_or in H. destruct H as [H|[H|[H|[]]]]; [tauto|discriminate|discriminate]. }
+  rewrite cut_false_comment.
+  2:{ apply no59_app; [exact H|]. apply no59_cons; try discriminate. apply no59_cons; try discriminate. apply no59_nil. }
   rewrite rtrim_app_trail by reflexivity.
   destruct Hs as [->|Hs]; [reflexivity|apply rtrim_solid, Hs].
 Qed.
 
 Lemma plain_no59 l : Forall (fun c => plain_char c = true) l -> no59 l.
 Proof.
-  intros F. rewrite Forall_forall in F. split; intros H; specialize (F _ H); discriminate F.
+  intros F. rewrite Forall_forall in F. repeat split; intros H; specialize (F _ H); discriminate F.
 Qed.
 Lemma plain_solid l : Forall (fun c => plain_char c = true) l -> l <> [] -> ends_solid l.
 Proof.
   intros F Hne. destruct (exists_last Hne) as [a [x ->]]. exists a, x. split; [reflexivity|].
   rewrite Forall_forall in F. assert (Hin : In x (a ++ [x])) by (apply in_or_app; right; left; reflexivity). specialize (F x Hin).
   unfold plain_char in F. unfold is_trail.
-  destruct (x =? 0), (x =? 10), (x =? 59), (x =? 35), (x =? 32), (x =? 9), (x =? 13); try discriminate F; reflexivity.
+  destruct (x =? 0), (x =? 10), (x =? 59), (x =? 35), (x =? 32), (x =? 9), (x =? 13), (x =? 34); try discriminate F; reflexivity.
 Qed.
 
 (* ---------------------------------------------------------------- lines *)
@@ -164,7 +172,7 @@ Qed.
 Lemma escape_cons_len c s : (length (escape s) < length (escape (c :: s)))%nat.
 Proof.
   cbn [escape]. rewrite app_length. unfold byte in *.
-  destruct (c =? 10); [simpl; lia|]. destruct (c =? 9); [simpl; lia|]. destruct (c =? 92); [simpl; lia|].
+  destruct (c =? 0); [simpl; lia|]. destruct (c =? 10); [simpl; lia|]. destruct (c =? 9); [simpl; lia|]. destruct (c =? 92); [simpl; lia|].
   destruct (c =? 34); simpl; lia.
 Qed.
 
@@ -183,6 +191,8 @@ Proof.
     pose proof (escape_cons_len c s) as Hlen.
     destruct fuel as [|f]; [lia|]. assert (Hf2 : (length (escape s) < f)%nat) by lia.
     cbn [escape].
+    destruct (N.eqb_spec c 0) as [->|N0]; [cbn [app quoted_body]; change (92 =? 34) with false; rewrite Hn; change (92 =? 92) with true;
+      cbn iota; change (48 =? 110) with false; change (48 =? 116) with false; change (48 =? 48) with true; cbn iota; apply Hrec; exact Hf2|].
     destruct (N.eqb_spec c 10) as [->|N10]; [|destruct (N.eqb_spec c 9) as [->|N9]; [|destruct (N.eqb_spec c 92) as [->|N92]; [|destruct (N.eqb_spec c 34) as [->|N34]]]].
     + cbn [app quoted_body]. change (92 =? 34) with false. rewrite Hn. change (92 =? 92) with true.
       cbn iota. change (110 =? 110) with true. cbn iota. apply Hrec. exact Hf2.
@@ -199,14 +209,29 @@ Proof.
       apply Hrec. exact Hf2.
 Qed.
 
-Lemma escape_no c s : c <> 92 -> c <> 110 -> c <> 116 -> c <> 34 -> ~ In c s -> ~ In c (escape s).
+Lemma escape_clean s : ~ In 10 (escape s) /\ ~ In 0 (escape s).
 Proof.
-  intros H1 H2 H3 H4. induction s as [|x s IH]; intros H; [exact H|]. cbn [escape].
-  intros G. apply in_app_or in G. destruct G as [G|G].
-  - destruct (x =? 10); [destruct G as [G|[G|[]]]; congruence|].
-    destruct (x =? 9); [destruct G as [G|[G|[]]]; congruence|].
-    destruct (x =? 92); [destruct G as [G|[G|[]]]; congruence|].
-    destruct (x =? 34); [destruct G as [G|[G|[]]]; congruence|].
-    destruct G as [G|[]]. apply H. left. exact G.
-  - apply IH; [|exact G]. intros K. apply H. right. exact K.
+  induction s as [|x s [I1 I2]]; [split; intros []|]. cbn [escape].
+  assert (G : forall c, (c = 10 \/ c = 0) ->
+    ~ In c (if x =? 0 then [92; 48] else if x =? 10 then [92; 110] else if x =? 9 then [92; 116] else if x =? 92 then [92; 92]
+            else if x =? 34 then [92; 34] else [x])).
+  { intros c Hc H. destruct (N.eqb_spec x 0); [destruct H as [H|[H|[]]]; destruct Hc; subst; discriminate|].
+    destruct (N.eqb_spec x 10); [destruct H as [H|[H|[]]]; destruct Hc; subst; discriminate|].
+    destruct (x =? 9); [destruct H as [H|[H|[]]]; destruct Hc; subst; discriminate|].
+    destruct (x =? 92); [destruct H as [H|[H|[]]]; destruct Hc; subst; discriminate|].
+    destruct (x =? 34); [destruct H as [H|[H|[]]]; destruct Hc; subst; discriminate|].
+    destruct H as [H|[]]. destruct Hc; subst; congruence. }
+  split; intros H; apply in_app_or in H; destruct H as [H|H]; try tauto; [apply (G 10)|apply (G 0)]; tauto.
+Qed.
+
+(* the comment scan leaves an escaped string alone and leaves string mode at its closing quote *)
+Lemma cut_true_escape s : forall rest, cut_comment true (escape s ++ 34 :: rest) = escape s ++ 34 :: cut_comment false rest.
+Proof.
+  induction s as [|c s IH]; intros rest; [apply cut_true_quote|]. cbn [escape].
+  destruct (N.eqb_spec c 0); [cbn [app]; rewrite cut_true_pair, IH; reflexivity|].
+  destruct (N.eqb_spec c 10); [cbn [app]; rewrite cut_true_pair, IH; reflexivity|].
+  destruct (N.eqb_spec c 9); [cbn [app]; rewrite cut_true_pair, IH; reflexivity|].
+  destruct (N.eqb_spec c 92); [cbn [app]; rewrite cut_true_pair, IH; reflexivity|].
+  destruct (N.eqb_spec c 34); [cbn [app]; rewrite cut_true_pair, IH; reflexivity|].
+  cbn [app]. rewrite cut_true_plain by assumption. rewrite IH. reflexivity.
 Qed.
